@@ -1231,3 +1231,51 @@ func init() {
 		return nil
 	}
 }
+
+// ---------------------------------------------------------------- in-place sorts (trusted: sort package contract)
+// configentry.SortSlice(s) sorts s in place with configentry.Less: afterwards the slice variable holds a
+// rearrangement (bijection on indices) of its old content in which no later element is Less than an earlier one.
+// Slices have value semantics in this model, so the model writes the sorted value back to the argument expression.
+
+func init() {
+	models[consulMod+"/agent/configentry.SortSlice"] = func(f *Frame, st *State, e *ast.CallExpr, recv *Term, args []*Term, sig *types.Signature) []*Term {
+		c := f.c
+		s := args[0]
+		sl := c.slices[s.Sort]
+		if sl == nil {
+			f.fail(e, "SortSlice on non-slice")
+		}
+		n := c.define(c.sliceLen(s), "sortn")
+		oldArr := c.define(c.sliceArr(s), "sortold")
+		newArr := c.fresh("sorted", ArrSort(SInt, sl.Elem))
+		c.nfresh++
+		id := c.nfresh
+		pi := c.declareFun(fmt.Sprintf("sortPi!%d", id), []Sort{SInt}, SInt)
+		inv := c.declareFun(fmt.Sprintf("sortInv!%d", id), []Sort{SInt}, SInt)
+		i := c.bvar("i", SInt)
+		pii := App(pi, SInt, i)
+		c.assume(st, Forall([]*Term{i}, Implies(And(Ge(i, IntLit(0)), Lt(i, n)),
+			And(Ge(pii, IntLit(0)), Lt(pii, n), Eq(App(inv, SInt, pii), i), Eq(Select(newArr, i), Select(oldArr, pii)))), Select(newArr, i)))
+		j := c.bvar("j", SInt)
+		invj := App(inv, SInt, j)
+		c.assume(st, Forall([]*Term{j}, Implies(And(Ge(j, IntLit(0)), Lt(j, n)),
+			And(Ge(invj, IntLit(0)), Lt(invj, n), Eq(App(pi, SInt, invj), j), Eq(Select(newArr, invj), Select(oldArr, j)))), Select(oldArr, j)))
+		// sortedness w.r.t. the real Less function
+		lessFi := f.eng.byName[consulMod+"/agent/configentry.Less"]
+		if lessFi == nil {
+			f.fail(e, "configentry.Less not loaded")
+		}
+		a := c.bvar("a", SInt)
+		b := c.bvar("b", SInt)
+		w := st.clone()
+		w.pc = TTrue
+		c.inQuant++
+		rs := f.inlineFunc(w, lessFi, nil, []*Term{Select(newArr, b), Select(newArr, a)}, e)
+		c.inQuant--
+		c.assume(st, Forall([]*Term{a, b}, Implies(And(Ge(a, IntLit(0)), Lt(a, b), Lt(b, n)), Not(rs[0]))))
+		ns := c.mkSlice(s.Sort, n, newArr)
+		f.store(st, f.lvalue(st, e.Args[0]), ns)
+		c.note("configentry.SortSlice: trusted in-place sort contract (bijective rearrangement, ordered by Less)")
+		return nil
+	}
+}
